@@ -111,22 +111,23 @@ theorem xread_effect (w : XWorld) (h : Nat) (n : Int) (bs : Bytes) (hr : (xread 
       by_cases hn : n < 0
       · rw [if_pos hn] at hr; cases hr
       rw [if_neg hn] at hr ⊢
-      by_cases hneg : (if n = 0 ∨ (a.posn : Int) + n > x.len then (x.len : Int) - a.posn else n) < 0
-      · rw [if_pos hneg] at hr; cases hr
-      rw [if_neg hneg] at hr ⊢
-      have hcnt : (if n = 0 ∨ (a.posn : Int) + n > x.len then (x.len : Int) - a.posn else n).toNat = readCount x.len a.posn n.toNat := by
+      have hcnt : (if (if n = 0 ∨ (a.posn : Int) + n > x.len then (x.len : Int) - a.posn else n) < 0 then (0 : Int)
+            else (if n = 0 ∨ (a.posn : Int) + n > x.len then (x.len : Int) - a.posn else n)).toNat = readCount x.len a.posn n.toNat := by
         unfold readCount
         by_cases c : n = 0 ∨ (a.posn : Int) + n > x.len
-        · rw [if_pos c] at hneg ⊢
+        · rw [if_pos c]
           by_cases hge : a.posn ≥ x.len
-          · simp only [hge, if_true]; omega
+          · simp only [hge, if_true]
+            split <;> omega
           · simp only [hge, if_false]
             have : n.toNat = 0 ∨ a.posn + n.toNat > x.len := by omega
-            simp only [this, if_true]; omega
+            simp only [this, if_true]
+            split <;> omega
         · rw [if_neg c]
           have hge : ¬ (a.posn ≥ x.len) := by omega
           have : ¬ (n.toNat = 0 ∨ a.posn + n.toNat > x.len) := by omega
           simp only [hge, this, if_false]
+          split <;> omega
       rw [hcnt] at hr ⊢
       cases hd : diskRead (w.file x.file) (x.off + a.posn) (readCount x.len a.posn n.toNat) with
       | none => rw [hd] at hr; cases hr
